@@ -82,7 +82,7 @@ PROPS = {
             'lens': [(['q.rw', 'z.iw', 'z.streams.iw'], ANY), (['r', 'o', 'e'], S('frame:DATA', 'call:inc', 'call:ack'))]},
     'C05': {'scenarios': scen('FlowS StallS', ['P_C05_AutoUpdateWithinBounds', 'P_C05_NoStall']),
             'lens': [(['r', 'o', 'q.rw', 'z.iw', 'z.streams.iw'], S('call:ack')), (['q.rw', 'z.iw', 'z.streams.iw'], S('frame:DATA', 'frame:SET'))]},
-    'C06': {'scenarios': scen('LifeS LifeC', GENERIC + ['P_C06_StreamStatesAreRfcStates']),
+    'C06': {'scenarios': scen('LifeS LifeC PushC', GENERIC + ['P_C06_StreamStatesAreRfcStates']),
             'lens': [(['r', 'o', 'e'] + STATE_FSM, ANY)]},
     'C07': {'scenarios': scen('LifeS LifeC Pair1 PushC', ['P_C07_EventsFitRole', 'P_C07_EventGrammar']),
             'lens': [(['e'] + STATE_FSM, S('recv', 'dlv')), (['r'], S('frame:HEADERS', 'frame:DATA'))]},
@@ -285,6 +285,9 @@ def _in_prefixes(f, prefixes):
 
 # deviations whose recorded defect is a dependence on chunk boundaries
 CHUNK_DEPENDENT = {'frame_size_limit_snapshot'}
+# deviation branches taken by a public call that raises: as built the call leaves state behind, the properties (C01, C06, C11,
+# C13, C29) demand that a raising call changes nothing
+RAISING_CALL_CHANGES_NOTHING = {'failed_send_partial_state', 'misuse_closes_stream', 'misuse_closes_connection', 'update_settings_partial'}
 
 
 def tainted(d, alive=None):
@@ -307,6 +310,19 @@ def tainted(d, alive=None):
         return False
     fp = [p for dv in dead for p in FOOTPRINT.get(dv, ['*'])]
     outside = [f for f in d.get('fields', []) if not _in_prefixes(f, fp)]
+    if not outside and dead <= RAISING_CALL_CHANGES_NOTHING and d.get('a') == 'call' and d.get('pre_z') is not None \
+            and (d.get('obs_r') or {}).get('c') not in (None, 'ok'):
+        # The branch is a call that raises and, as built, leaves state behind; what every property demands there is that it
+        # changes nothing.  The code no longer does what the finding recorded: if it left the state exactly as it was, the
+        # defect was repaired (not judged); if it changed the state in yet another way, that is neither the recorded finding
+        # nor its repair, and it is judged.
+        from harness import driver
+        changed = driver.diff({'z': d['pre_z']}, {'z': d.get('obs_z')})
+        if changed:
+            d['fields_all'] = d.get('fields', [])
+            d['fields'] = sorted(set(d.get('fields', [])) | set(changed))
+            d['what'] = (d.get('what') or '') + ' (a raising call changed state: neither the recorded finding %s nor its repair)' % sorted(dead)
+            return False
     if not outside:
         return True
     d['fields_all'] = d.get('fields', [])
